@@ -279,8 +279,11 @@ def layer_bounds(s):
     return {"Paddy": [0.5], "ac_TunisLocal": [0.3]}.get(s["type"], [])
 
 
-def iwc_depth_spec(rng, s, kind=None):
-    """Initial water content given at depth points (>= 1 cm away from layer boundaries)."""
+def iwc_depth_spec(rng, s, kind=None, bottom=False):
+    """Initial water content given at depth points (>= 1 cm away from layer boundaries).
+    bottom=True: one run in four also gives a point exactly at the bottom of the compartment grid
+    as specified (the bottom of the profile unless the crop's rooting depth makes the model deepen
+    it) - no layer boundary, so the owning layer is not in doubt."""
     bounds = layer_bounds(s)
     npts = int(rng.integers(1, 5))
     pts = set()
@@ -288,6 +291,11 @@ def iwc_depth_spec(rng, s, kind=None):
         z = round(float(rng.uniform(0.02, 2.2)), 2)
         if all(abs(z - b) >= 0.015 for b in bounds):
             pts.add(z)
+    if bottom and chance(rng, 0.25):
+        dz = s.get("kw", {}).get("dz") or ([0.1] * 6 + [0.15] * 5 + [0.2] if s["type"] == "ac_TunisLocal" else [0.1] * 12)
+        zb = round(float(sum(dz)), 2)
+        if all(abs(zb - b) >= 0.015 for b in bounds):
+            pts.add(zb)
     depths = sorted(pts)
     kind = kind or pick(rng, ["Prop", "Pct", "Num"])
     if kind == "Prop":
